@@ -264,7 +264,11 @@ class Machine:
             else:
                 v = int(s.a[c])
             out.append([list(c), int(v)])
-        return {"op": "update", "slot": i, "cells": out}
+        op = {"op": "update", "slot": i, "cells": out}
+        if rng.random() < 0.12:
+            # an entry with NO rows for some value: degenerate but legal, must change nothing
+            op["empty_keys"] = [[int(rng.choice(list(palette) + [9]))] + [rng.randrange(max(1, e)) for e in s.a.shape[1:]]]
+        return op
 
     def gen_filtered(self, rng, palette):
         i = self._slot_where(rng, lambda s: s.a.ndim <= 2)
@@ -397,6 +401,8 @@ class Machine:
                 return None
             for c in rng.sample(cells, min(len(cells), rng.choice((0, 1, 2, 3)))):
                 ent.setdefault((rng.choice(vals),) + c[1:], []).append(c[0])
+            if rng.random() < 0.15:
+                ent.setdefault((rng.choice(vals),) + tuple(rng.randrange(max(1, e)) for e in s.a.shape[1:]), [])
             for k in dict.keys(s.idx):  # plus some rows that are already there
                 if rng.random() < 0.3:
                     have = dict.__getitem__(s.idx, k).tolist()
@@ -552,6 +558,12 @@ class Machine:
         ent = {}
         for c, v in cells:
             ent.setdefault((v,) + c[1:], []).append(c[0])
+        for k in op.get("empty_keys", ()):
+            k = tuple(k)
+            self.guard(len(k) == s.a.ndim and all(0 <= x < e for x, e in zip(k[1:], s.a.shape[1:])))
+            if k not in ent:
+                ent[k] = []
+                self.stats.count("probe_update_with_empty_entry")
         entries = {k: numpy.array(sorted(r), dtype=U32) for k, r in ent.items()}
         snap = model.snapshot(entries)
         if any(v == s.idx.common for _, v in cells):
